@@ -33,9 +33,11 @@ func (m *Module) Init(s *models.Session, p *models.Participant) {
 	}
 	m.state = state.(*State)
 
+	m.state.mutex.Lock()
 	if m.state.SpatialPartition == nil {
 		m.state.SpatialPartition = NewRegularGrid(1, 1, 2)
 	}
+	m.state.mutex.Unlock()
 }
 
 func (m *Module) HandleMsg(ctx context.Context, respond hwebsocket.ResponseSender, msg hwebsocket.Msg) error {
@@ -91,6 +93,9 @@ func (m *Module) HandleDagazQuadSample(ctx context.Context, msg hwebsocket.Msg) 
 			WithTag("msg_type", msg.Type)
 	}
 
+	m.state.mutex.Lock()
+	defer m.state.mutex.Unlock()
+
 	for _, newQuad := range newQuadSample.Samples {
 		if newQuad == nil || !validPoint(newQuad.Center) || !validPoint(newQuad.Extents) {
 			// a sample without a centre or extents, or with a coordinate the grid cannot hold, is ignored
@@ -117,6 +122,7 @@ func (m *Module) HandleDagazGetGroundPlane(ctx context.Context, respond hwebsock
 	}
 
 	var quadHit *Quad
+	m.state.mutex.RLock()
 	if req.Ray != nil && req.Ray.From != nil && req.Ray.To != nil {
 		ray := NewRayFromProtobuf(req.Ray)
 		quadHit, _ = m.state.SpatialPartition.IntersectQuad(ray)
@@ -131,6 +137,7 @@ func (m *Module) HandleDagazGetGroundPlane(ctx context.Context, respond hwebsock
 		}
 	}
 	sampleGroundQuad := quadHit.ToProtobuf()
+	m.state.mutex.RUnlock()
 
 	respond.Send(&dagazpb.DagazGetGroundPlaneResponse{
 		Type:      dagazpb.MsgType_MSG_TYPE_DAGAZ_GET_GROUND_PLANE_RESPONSE,
@@ -155,6 +162,7 @@ func (m *Module) HandleDagazGetRegion(ctx context.Context, respond hwebsocket.Re
 	}
 
 	var regionQuads []*Quad
+	m.state.mutex.RLock()
 	if req.Min != nil && req.Max != nil {
 		regionQuads = m.state.SpatialPartition.GetRegion(NewVector3fFromProtobuf(req.Min), NewVector3fFromProtobuf(req.Max))
 	}
@@ -162,6 +170,7 @@ func (m *Module) HandleDagazGetRegion(ctx context.Context, respond hwebsocket.Re
 	for i := 0; i < len(regionQuads); i++ {
 		regionQuadsProtobuf[i] = regionQuads[i].ToProtobuf()
 	}
+	m.state.mutex.RUnlock()
 
 	respond.Send(&dagazpb.DagazGetRegionResponse{
 		Type:      dagazpb.MsgType_MSG_TYPE_DAGAZ_GET_REGION_RESPONSE,
@@ -185,7 +194,9 @@ func (m *Module) HandleDagazGetDebugInfo(ctx context.Context, respond hwebsocket
 			WithTag("msg_type", msg.Type)
 	}
 
+	m.state.mutex.RLock()
 	debugInfo := m.state.SpatialPartition.GetDebugInfo()
+	m.state.mutex.RUnlock()
 
 	respond.Send(&dagazpb.DagazGetDebugInfoResponse{
 		Type:           dagazpb.MsgType_MSG_TYPE_DAGAZ_GET_DEBUG_INFO_RESPONSE,
